@@ -1,0 +1,69 @@
+/*
+ * Verification hook: child module of `client` (feature `verif` only).  Read-only view of the
+ * client implementation's private state.  Add-only; not referenced by the rest of the crate.
+ */
+
+#![allow(missing_docs)]
+
+use super::*;
+
+pub(crate) fn client_state_code(state: ClientImplState) -> u8 {
+    match state {
+        ClientImplState::Stopped => 0,
+        ClientImplState::Connecting => 1,
+        ClientImplState::Connected => 2,
+        ClientImplState::PendingReconnect => 3,
+        ClientImplState::Shutdown => 4,
+    }
+}
+
+pub(crate) fn client_state_from_code(code: u8) -> ClientImplState {
+    match code {
+        0 => ClientImplState::Stopped,
+        1 => ClientImplState::Connecting,
+        2 => ClientImplState::Connected,
+        3 => ClientImplState::PendingReconnect,
+        _ => ClientImplState::Shutdown,
+    }
+}
+
+#[derive(Clone, Debug, Default, PartialEq, Eq, Hash)]
+pub struct ClientView {
+    /// 0 Stopped, 1 Connecting, 2 Connected, 3 PendingReconnect, 4 Shutdown
+    pub current_state: u8,
+    pub desired_state: u8,
+    /// None: no stop options pending; Some(b): pending, b = carries a DISCONNECT packet
+    pub desired_stop_has_disconnect: Option<bool>,
+    pub has_last_error: bool,
+    pub has_last_connack: bool,
+    pub last_connack_success: bool,
+    pub has_last_disconnect: bool,
+    pub has_successful_connect_time: bool,
+    pub next_reconnect_period: Duration,
+    pub base_reconnect_period: Duration,
+    pub max_reconnect_period: Duration,
+    pub stability_reset_period: Duration,
+    pub queued_packet_events: usize,
+}
+
+pub(crate) fn client_view(client: &MqttClientImpl) -> ClientView {
+    ClientView {
+        current_state: client_state_code(client.current_state),
+        desired_state: client_state_code(client.desired_state),
+        desired_stop_has_disconnect: client.desired_stop_options.as_ref().map(|options| options.disconnect.is_some()),
+        has_last_error: client.last_error.is_some(),
+        has_last_connack: client.last_connack.is_some(),
+        last_connack_success: client.last_connack.as_ref().is_some_and(|connack| connack.reason_code == ConnectReasonCode::Success),
+        has_last_disconnect: client.last_disconnect.is_some(),
+        has_successful_connect_time: client.successful_connect_time.is_some(),
+        next_reconnect_period: client.next_reconnect_period,
+        base_reconnect_period: client.reconnect_options.base_reconnect_period,
+        max_reconnect_period: client.reconnect_options.max_reconnect_period,
+        stability_reset_period: client.reconnect_options.reconnect_stability_reset_period,
+        queued_packet_events: client.packet_events.len(),
+    }
+}
+
+pub(crate) fn protocol_state_of(client: &MqttClientImpl) -> &ProtocolState {
+    &client.protocol_state
+}
